@@ -237,3 +237,33 @@ for _src in SECTIONS:
                       "cdd.shared.docstring_utils.header_args_footer_to_str"],
                bound="%s docstring with a 4-line header containing ANY 2 printable non-blank characters (twice), converted to %s %s the original docstring carried along: "
                      "every header line present, in order; no header prose in a typ/default" % (_src, _dst, "with" if _carry else "without"))(_convert(_src, _dst, _carry))
+
+
+# --- P5: the header part IS the header: section titles are recognised at every indentation ------------------------------------------------
+def _header_is_header(doc, pos, want_lines):
+    def body(c):
+        from cdd.shared.docstring_utils import parse_docstring_into_header_args_footer
+
+        ch = chr(c)
+        if ch == "\n" or ch == "\r" or ch.isspace() or ch == ":" or ch == "-":
+            return ""
+        d = doc[:pos] + ch + doc[pos:]
+        h, a, f = parse_docstring_into_header_args_footer(d, d)
+        got = [ln.strip() for ln in ("" if h is None else h).split("\n") if ln.strip()]
+        if got != want_lines:
+            return "the header part is %r, expected the header prose %r" % (got, want_lines)
+        for ln in want_lines:
+            if a is not None and ln in a:
+                return "header prose ended up inside the parameter section part"
+        return ""
+
+    return body
+
+
+for _style, _doc in SKELETONS.items():
+    for _ind in (0, 2, 4, 8):
+        _d = indented(_doc, _ind)
+        _pos = _d.index("desc a") + 3
+        ob("C15", "P5.header.%s.i%d" % (_style, _ind), {"c": CP}, tier="quick", T=200, funcs=FUNCS,
+           bound="%s skeleton indented %d with ANY non-blank code point (not ':' or '-') inserted inside a parameter description: the header part is exactly the two header lines, "
+                 "none of them inside the section part" % (_style, _ind))(_header_is_header(_d, _pos, ["Header line.", "More header."]))
